@@ -23,11 +23,13 @@ with fplan :=
 | FP (tag : option N)        (* Some t: the resolver returns a ResolvePromise (t is a static label the
                                 scheduler may look at); None: it answers synchronously *)
      (nn : bool)             (* the field's type is non-null *)
-     (res : option vplan).   (* None: resolver error / promise fulfilled with an error *)
+     (res : option vplan)    (* None: resolver error / promise fulfilled with an error *)
+| FTypename.                 (* the selection is __typename: no resolver is called, executeSelections
+                                stores the name of the object type itself *)
 
 Definition selset := list (bytes * fplan).
 
-Definition fp_nn (fp : fplan) : bool := match fp with FP _ nn _ => nn end.
+Definition fp_nn (fp : fplan) : bool := match fp with FP _ nn _ => nn | FTypename => true end.
 
 (** ** Response paths.  Go's [*path] is a linked list whose head is the LAST component
     (executor/path.go); [Slice()] reverses it. *)
